@@ -46,6 +46,9 @@ def main():
         if args[i] == "--tier":
             tier = args[i + 1]
             i += 2
+        elif args[i] == "--list":
+            os.environ["GRINLINT_LIST"] = "1"
+            i += 1
         elif args[i] == "--replay":
             replay = args[i + 1]
             i += 2
@@ -80,11 +83,12 @@ def main():
             knowns.append(o)
         else:
             viols.append(o)
-    os.makedirs(os.path.join(VERIF, "evidence", "replay"), exist_ok=True)
+    evdir = os.environ.get("VERIF_EVIDENCE", os.path.join(VERIF, "evidence"))
+    os.makedirs(os.path.join(evdir, "replay"), exist_ok=True)
     for o in knowns:
         print("KNOWN-FINDING: property=%s %s" % (prop, known[o["key"]].get("what", o["key"])))
     for n, o in enumerate(viols):
-        rp = os.path.join(VERIF, "evidence", "replay", "%s-%d.json" % (prop, n))
+        rp = os.path.join(evdir, "replay", "%s-%d.json" % (prop, n))
         json.dump(o, open(rp, "w"), indent=1)
         print("---- %s %s [%s] %s" % (o["verdict"].upper(), o["id"], o["kind"], o["desc"]))
         print("     key: " + o["key"])
@@ -93,6 +97,9 @@ def main():
         for w in o["witness"]:
             print("     " + w)
         print("VIOLATION property=%s replay=%s" % (prop, rp))
+    if os.environ.get("GRINLINT_LIST"):
+        for o in ctx.obls:
+            print("%-10s %-34s %s\n             %s" % (o["verdict"], o["id"], o["desc"][:150], " | ".join(o["sites"][:4])[:220]))
     held = [o for o in ctx.obls if o["verdict"] == "hold"]
     samples = []
     seen_kinds = set()
@@ -137,7 +144,7 @@ def main():
         "wall_s": round(time.time() - t0, 2),
         "violations": len(viols),
     }
-    with open(os.path.join(VERIF, "evidence", prop + ".json"), "w") as fh:
+    with open(os.path.join(evdir, prop + ".json"), "w") as fh:
         json.dump(ev, fh, indent=1)
     print("%s tier=%s obligations=%d held=%d known=%d violations=%d functions=%d wall=%.1fs" % (
         prop, tier, len(ctx.obls), len(held), len(knowns), len(viols), len(ctx.fn_seen), time.time() - t0))
